@@ -25,6 +25,7 @@ import ScalesModel.Adapter.MuxCodec
 import ScalesModel.Adapter.ThriftCodec
 import ScalesModel.Adapter.Serial
 import ScalesModel.Adapter.MuxT
+import ScalesModel.Adapter.Watermark
 open Scales
 
 def components : List Comp := [
@@ -47,7 +48,8 @@ def components : List Comp := [
   ⟨"muxcodec", Scales.MuxCodec.comp.run⟩,
   ⟨"thriftcodec", Scales.ThriftCodec.comp.run⟩,
   ⟨"serial", Scales.Serial.comp.run⟩,
-  ⟨"muxt", Scales.MuxT.comp.run⟩
+  ⟨"muxt", Scales.MuxT.comp.run⟩,
+  ⟨"watermark", Scales.Watermark.comp.run⟩
 ]
 
 structure CaseAcc where
